@@ -91,6 +91,9 @@ class StaleChildMonitor(Monitor):
         self.stale = {}
         self.hits = []
 
+    def on_build_start(self, world):
+        world.stale_labels = set()
+
     def on_commit(self, world, prev, snap, info):
         if prev is None:
             self.stale = {}
@@ -120,6 +123,9 @@ class StaleChildMonitor(Monitor):
                     self.hits.append((snap.nodes[c][1], label))
                     world.count("probe.stale_child_command")
                     world.log_event("stale_child", snap.nodes[c][1], label)
+                    if not hasattr(world, "stale_labels"):
+                        world.stale_labels = set()
+                    world.stale_labels.add(label)
         for i in newly:
             self.stale[i] = descendants_steps(snap, i)
 
@@ -586,6 +592,7 @@ class DispatchMonitor(Monitor):
             need = g.implied_need(targets, tdirs)
             for i, b in dispatched:
                 self.count("dispatch.run" if b == RUNNING else "dispatch.check")
+                world.log_event("dispatch", prev.nodes[i][1], SNAME[b])
                 ok, why = eligible(g, i, need, threshold, avail, for_check=(b == CHECKING))
                 if not ok:
                     self.violate(
@@ -744,12 +751,18 @@ class LimitMonitor(Monitor):
                 world.count("probe.resource_limit_reached")
         j = self.held.get(proc.label)
         if j is not None:
+            holder = self.job_label.get(j)
+            key = "hold-violated"
+            if holder in getattr(world, "stale_labels", ()):
+                # known finding F5: the holder itself was a stale child that kept running while
+                # its creator reran and recycled it (after_recycle resets _holding)
+                key = "hold-violated-holder-recycled-while-running"
             self.violate(
                 "R-limit/hold",
                 "started-while-held",
                 f"{proc.label} was declared inside a hold() block of job {j} "
-                f"({self.job_label.get(j)}) that has not been released, and its command started",
-                "hold-violated",
+                f"({holder}) that has not been released, and its command started",
+                key,
             )
 
     def on_cmd_end(self, world, proc, rc):
@@ -809,6 +822,7 @@ class InputFinalityMonitor(Monitor):
         self.windows = {}  # pid -> dict(label, start_seq, end_seq, reads)
         self.success = []  # (label, pid) of completed successful runs
         self.build_log_start = 0
+        self.refreshed = set()
 
     def on_build_start(self, world):
         self.cmd_running.clear()
@@ -845,6 +859,13 @@ class InputFinalityMonitor(Monitor):
             ap = os.path.join(world.root, path)
             self.count("initial_inputs_checked")
             if not os.path.exists(ap):
+                if any(
+                    ev[2] == "fs" and ev[3] == "user" and ev[5] == path
+                    for ev in world.log[self.build_log_start :]
+                ):
+                    # the user removed a confirmed file during this build: not StepUp's doing
+                    world.count("probe.input_removed_by_user_before_start")
+                    continue
                 self.violate(
                     "R-start/ground-truth",
                     "input-missing-at-start",
@@ -905,12 +926,25 @@ class InputFinalityMonitor(Monitor):
                 for ev in world.log[w["start"] : w["end"]]:
                     if ev[2] == "fs" and ev[4] in ("write", "remove", "rename", "rmdir"):
                         if ev[5] in inputs and ev[3] != actor_self:
+                            key = "succeeded-despite-change"
+                            # known finding F8: a sibling consumer failed on the same change
+                            # first and stored the new hash, which this step is compared with
+                            for ev2 in world.log[ev[0] :]:
+                                if (
+                                    ev2[2] == "report"
+                                    and ev2[3] == "FAIL"
+                                    and ev2[4] != label
+                                    and "Invalid inputs" in ev2[5]
+                                ):
+                                    key = "succeeded-despite-change:hash-refreshed-by-failed-sibling"
+                                    self.refreshed.add(label)
+                                    break
                             self.violate(
                                 "R-final/window",
                                 "input-changed-while-running",
                                 f"{label} recorded as SUCCEEDED although its input {ev[5]} was "
                                 f"changed ({ev[4]} by {ev[3]}) while its command ran",
-                                "succeeded-despite-change",
+                                key,
                             )
                 self.success.append((label, pid, sorted(inputs), w.get("reads", [])))
 
@@ -926,6 +960,12 @@ class InputFinalityMonitor(Monitor):
         final_state = {}
         for i, row in snap.steps.items():
             final_state[snap.nodes[i][1]] = (row[COL["state"]], snap.nodes[i][3])
+        recorded = {}
+        file_state = {}
+        for i, (st_, hj) in snap.files.items():
+            if i in snap.nodes:
+                recorded[snap.nodes[i][1]] = _hex_digest(hj)
+                file_state[snap.nodes[i][1]] = st_
         last = {}
         for label, pid, inputs, reads in self.success:
             last[label] = (pid, inputs, reads)
@@ -936,16 +976,35 @@ class InputFinalityMonitor(Monitor):
             for relpath, d in reads:
                 if relpath not in inputs:
                     continue
-                now = digest_of(os.path.join(world.root, relpath))
+                now = recorded.get(relpath, "absent")
                 self.count("reads_checked")
                 if d != now:
+                    key = "succeeded-on-stale-read"
+                    if label in self.refreshed:
+                        key += ":hash-refreshed-by-failed-sibling"
+                    elif file_state.get(relpath) in (F["OUTDATED"], F["PLANNED"]):
+                        # known finding F9: the input was changed after this step finished;
+                        # it is OUTDATED now but its consumers were not made pending
+                        key += ":input-outdated-consumer-not-pending"
                     self.violate(
                         "R-final/content",
                         "stale-read",
                         f"{label} is SUCCEEDED but read {relpath} with digest {d}, "
-                        f"while the file holds {now} at the end of the build",
-                        "succeeded-on-stale-read",
+                        f"while the recorded content is {now} at the end of the build",
+                        key,
                     )
+
+
+def _hex_digest(hash_json):
+    """First 16 hex digits of the content digest in a stored FileHash, or None."""
+    if hash_json is None:
+        return None
+    from stepup.core.hash import FileHash
+
+    try:
+        return FileHash.from_json(hash_json).digest.hex()[:16]
+    except Exception:  # noqa: BLE001
+        return "?"
 
 
 # =============================================================================================
